@@ -33,8 +33,8 @@ def canon_ref(items, rust_of, ids=None, names=None):
         k = it["k"]
         if k in ("int", "float", "bool", "guid", "packedguid", "cstring", "sizedcstring", "string", "datetime"):
             c = {"c": k, "leaf": it["leaf"], "id": ids.next(), "name": it.get("name")}
-            if k == "int" and it["leaf"][1] == 4 and it["leaf"][2] == "be":
-                pass
+            if it.get("wty") in ("Seconds", "Milliseconds"):
+                c["unit"] = "s" if it["wty"] == "Seconds" else "ms"  # both are std::time::Duration in Rust: only the unit tells them apart
             out.append(c)
         elif k == "builtin":
             out.append({"c": "builtin", "name": it["bname"], "id": ids.next(), "fname": it.get("name")})
@@ -167,7 +167,11 @@ class ReadCanon:
                 return {"c": "flag", "ty": target, "wire_w": w}
             if kind == "datetime":
                 return {"c": "datetime", "leaf": ("datetime",)}
-            return {"c": "int", "leaf": ("int", w, en, signed)}
+            r_ = {"c": "int", "leaf": ("int", w, en, signed)}
+            dur = [c for c in conv if c[0] == "duration"]
+            if dur:
+                r_["unit"] = {"from_secs": "s", "from_millis": "ms"}.get(dur[-1][1], dur[-1][1])
+            return r_
         if k == "float":
             return {"c": "float", "leaf": it["leaf"]}
         if k == "bool":
@@ -329,6 +333,10 @@ def compare(a, b, path, out, la="code", lb="wowm"):
         if k in ("int", "float", "bool", "guid", "packedguid", "cstring", "sizedcstring", "string", "datetime"):
             if tuple(x["leaf"]) != tuple(y["leaf"]):
                 out.append((here, f"{la} has {describe(x)}, {lb} has {describe(y)}"))
+            elif x.get("unit") != y.get("unit") and (x.get("unit") or y.get("unit")):
+                names_ = {"s": "seconds", "ms": "milliseconds", None: "a plain integer"}
+                out.append((here, f"unit of the Duration member: {la} converts {names_.get(x.get('unit'), x.get('unit'))}, {lb} says {names_.get(y.get('unit'), y.get('unit'))} "
+                                  f"(the value on the wire is off by a factor of 1000)"))
         elif k in ("enum", "flag"):
             if x.get("ty") is None and x.get("table") is not None and y.get("obj") is not None:
                 exp = {enumerator_rust_name(f[0]): f[1] for f in y["obj"].ast.fields}
@@ -470,6 +478,9 @@ class WriteCanon:
                 c = {"c": "int", "leaf": ("int", w, en, it["signed"])}
                 if src.get("kind") == "const":
                     c["const"] = src["const"]
+                du = [o[0] for o in ops if o[0] in ("as_secs", "as_millis", "as_micros", "as_nanos", "subsec_millis", "subsec_nanos", "as_secs_f32", "as_secs_f64")]
+                if du:
+                    c["unit"] = {"as_secs": "s", "as_millis": "ms"}.get(du[-1], du[-1])
             c["src_path"] = src.get("path")
             return c
         if k == "call":
